@@ -62,6 +62,35 @@ CLAIMED = {
         note="Lean kernel + standard axioms; no NaN; dense-time laws validated by the metamorphic stream only; tie sampled.",
         technique="Lean 4 proof (window algebra over a bounded linear order) + metamorphic correspondence",
         design="DESIGN.md §4 C18"),
+    "C08": dict(
+        text="Machine-checked proof (Lean 4) that the elaboration of a surface interval (number + optional unit on either end, "
+             "default unit, sampling period in any unit) to samples depends only on the durations relative to the sampling period, "
+             "that samples x period is exactly the written duration, that non-multiples are rejected with RTAMTException, and "
+             "hence that specifications with the same durations elaborate to the same core formula (so every monitor and pastify "
+             "give identical results); dense-time bounds depend on durations only. Correspondence: metamorphic over random "
+             "configurations and spellings on the real offline, online and pastified monitors, plus model elaboration vs real outcome.",
+        note="Lean kernel + standard axioms; the commutation of the surface pastifier with elaboration is validated by the stream, "
+             "not proved; known finding F35 (pastify of next under a period different from one default unit) excluded by region; "
+             "tie sampled.",
+        technique="Lean 4 proof (rational arithmetic of unit conversion + structural congruence) + metamorphic correspondence",
+        design="DESIGN.md §4 C08"),
+    "C10": dict(
+        text="Machine-checked proof (Lean 4) that reset of any state reachable from a freshly constructed discrete-time online "
+             "monitor is the freshly constructed state (mirror of every operation's reset(), incl. ring buffers refilled with "
+             "neutral elements), that reset before the first update is the identity, and that after reset all updates and counters "
+             "are those of a fresh monitor. Correspondence: reset monitor vs fresh monitor vs mirror on the real code, with "
+             "sub-specifications, pastified specifications and empty histories.",
+        note="Lean kernel + standard axioms; dense-time reset (operators are reconstructed) covered by correspondence only; tie sampled.",
+        technique="Lean 4 proof (shape invariant preserved by step, reset maps it to init) + differential correspondence",
+        design="DESIGN.md §4 C10"),
+    "C13": dict(
+        text="Machine-checked proof (Lean 4, rationals) that the online fold and the offline loop of the sampling-violation counter "
+             "count exactly the gaps outside [P(1-tol),P(1+tol)] with P the period in the unit of the time stamps, for time-stamp "
+             "lists of any length, and that the robustness values do not depend on the time stamps. Correspondence: counters of "
+             "the real online and offline monitors on exactly representable configurations incl. gaps on both boundaries.",
+        note="Lean kernel + standard axioms; float rounding of the code not modelled (inputs are dyadic); tie sampled.",
+        technique="Lean 4 proof (fold invariants, rational inequalities) + differential correspondence",
+        design="DESIGN.md §4 C13"),
 }
 
 NOT_YET = {}
